@@ -217,7 +217,9 @@ func runC13(seed int64, tier string, sc *Script) map[string]any {
 	}
 	evals := 0
 	for ci := 0; ci < cases; ci++ {
-		prof := regProfile{ReferrersAPI: rng.Intn(2) == 0, DigestHeaders: rng.Intn(3) != 0, Ranges: rng.Intn(2) == 0, Mount: rng.Intn(2) == 0}
+		prof := regProfile{ReferrersAPI: rng.Intn(2) == 0, DigestHeaders: rng.Intn(3) != 0, Ranges: rng.Intn(2) == 0, Mount: rng.Intn(2) == 0,
+			// the referrers listing may come in pages, some of them empty
+			PageLimit: []int{0, 0, 1, 2}[rng.Intn(4)], EmptyPages: rng.Intn(3) == 0}
 		custom := rng.Intn(4) == 0
 		sc.Case(fmt.Sprintf("remote-history api=%v dh=%v rg=%v mt=%v custom=%v", prof.ReferrersAPI, prof.DigestHeaders, prof.Ranges, prof.Mount, custom))
 		sc.NonTrivial()
@@ -583,6 +585,71 @@ func runC13(seed int64, tier string, sc *Script) map[string]any {
 				sc.Count("op:preds")
 			}
 		}
+		reg.Close()
+	}
+	// referrers of a subject through the Referrers API, listed in pages - some of them empty,
+	// some without a single entry of the artifact type asked for: Predecessors and Referrers
+	// still return every referrer the registry holds
+	refCases := 12
+	if tier == "thorough" {
+		refCases = 200
+	}
+	for ci := 0; ci < refCases; ci++ {
+		prof := regProfile{ReferrersAPI: true, DigestHeaders: true, PageLimit: 1 + rng.Intn(2), EmptyPages: ci%2 == 0, ServerFilter: ci%4 >= 2, LinkStyle: rng.Intn(2)}
+		sc.Case(fmt.Sprintf("referrers-pages limit=%d empty=%v serverfilter=%v", prof.PageLimit, prof.EmptyPages, prof.ServerFilter))
+		sc.NonTrivial()
+		reg := newFakeRegistry(prof)
+		repo, _ := remote.NewRepository(reg.Host() + "/a/b")
+		repo.PlainHTTP = true
+		sb := []byte(fmt.Sprintf(`{"schemaVersion":2,"mediaType":%q,"config":{"mediaType":"application/vnd.oci.empty.v1+json","digest":"sha256:44136fa355b3678a1146ad16f7e8649e94fb4fc21fe77e8310c060f61caaff8a","size":2},"layers":[],"annotations":{"rp":"%d"}}`, ocispec.MediaTypeImageManifest, ci))
+		sub := ocispec.Descriptor{MediaType: ocispec.MediaTypeImageManifest, Digest: digest.FromBytes(sb), Size: int64(len(sb))}
+		if err := repo.Push(ctx, sub, bytes.NewReader(sb)); err != nil {
+			panic(err)
+		}
+		n := 2 + rng.Intn(5)
+		var all, typed []string
+		for i := 0; i < n; i++ {
+			at := []string{"application/vnd.verif.sig", "application/vnd.verif.sbom+json"}[rng.Intn(2)]
+			b := []byte(fmt.Sprintf(`{"schemaVersion":2,"mediaType":%q,"artifactType":%q,"config":{"mediaType":"application/vnd.oci.empty.v1+json","digest":"sha256:44136fa355b3678a1146ad16f7e8649e94fb4fc21fe77e8310c060f61caaff8a","size":2},"layers":[],"subject":{"mediaType":%q,"digest":%q,"size":%d},"annotations":{"i":"r%02d"}}`,
+				ocispec.MediaTypeImageManifest, at, sub.MediaType, sub.Digest, sub.Size, i))
+			d := ocispec.Descriptor{MediaType: ocispec.MediaTypeImageManifest, Digest: digest.FromBytes(b), Size: int64(len(b))}
+			if err := repo.Push(ctx, d, bytes.NewReader(b)); err != nil {
+				panic(err)
+			}
+			all = append(all, fmt.Sprintf("r%02d", i))
+			if at == "application/vnd.verif.sbom+json" {
+				typed = append(typed, fmt.Sprintf("r%02d", i))
+			}
+		}
+		show := func(ds []ocispec.Descriptor, err error) string {
+			if err != nil {
+				return "err:" + strings.ReplaceAll(err.Error(), " ", "_")
+			}
+			var names []string
+			for _, d := range ds {
+				names = append(names, d.Annotations["i"])
+			}
+			sort.Strings(names)
+			if len(names) == 0 {
+				return "-"
+			}
+			return strings.Join(names, ",")
+		}
+		want := func(l []string) string {
+			if len(l) == 0 {
+				return "-"
+			}
+			return strings.Join(l, ",")
+		}
+		ps, err := repo.Predecessors(ctx, sub)
+		sc.Op(show(ps, err), "rm reflist how=predecessors want=%s", want(all))
+		var got []ocispec.Descriptor
+		err = repo.Referrers(ctx, sub, "application/vnd.verif.sbom+json", func(rs []ocispec.Descriptor) error {
+			got = append(got, rs...)
+			return nil
+		})
+		sc.Op(show(got, err), "rm reflist how=referrers-of-type want=%s", want(typed))
+		evals += 2
 		reg.Close()
 	}
 	// Read/Seek sequences on blob readers
